@@ -172,6 +172,8 @@ fn mixed_alphabet(s: &Screen) -> Vec<Op> {
         Op::Rm(vec![5], true),
         Op::Sm(vec![3], true),
         Op::Rm(vec![3], true),
+        Op::Rm(vec![25], true),
+        Op::Sm(vec![25], true),
         Op::Sgr(vec![7, 33]),
         Op::SaveCursor,
         Op::RestoreCursor,
@@ -556,6 +558,7 @@ pub fn c15(c: &Collector, g: &mut Guard) {
     let gs = geoms(c);
     let mut spec = broad_spec(c, gs.clone());
     spec.cursors = CursorSel::Corners;
+    spec.stacks = vec![0, 2];
     spec.charsets = vec![(false, "B", "0"), (true, "U", "V")];
     spec.hidden_cursor = false;
     let mut bases = gen_bases(c, &spec);
@@ -599,8 +602,58 @@ pub fn c15(c: &Collector, g: &mut Guard) {
             c15_compare(c, t, e, local, depth);
         },
     );
+    // tab-stop edits on widths that have default stops: every set of at most 3 stops
+    let mut tb: Vec<Base> = Vec::new();
+    for w in [9u32, 12, 17] {
+        let cols: Vec<u32> = (0..w).collect();
+        let mut sets: Vec<Vec<u32>> = vec![vec![]];
+        for a in &cols {
+            sets.push(vec![*a]);
+            for b in &cols {
+                if a < b {
+                    sets.push(vec![*a, *b]);
+                    if c.thorough() {
+                        for d in &cols {
+                            if b < d {
+                                sets.push(vec![*a, *b, *d]);
+                            }
+                        }
+                    }
+                }
+            }
+        }
+        for set in sets {
+            let mut script = vec![Op::Tbc(Some(3))];
+            for col in &set {
+                script.push(Op::Cha(Some(col + 1)));
+                script.push(Op::SetTabStop);
+            }
+            if let Ok(s) = build(w, 1, &script) {
+                tb.push(Base { columns: w, lines: 1, script, screen: s });
+            }
+        }
+    }
+    c.count("tab_edit_bases", tb.len() as u64);
+    sweep(c, &tb, |_| vec![Op::Reset], |c, t, local| {
+        c15_compare(c, t, "E2.reset.tabs", local, 1);
+    });
+    // histories: reset() from every state visited by a mixed-alphabet BFS (save/restore across
+    // mode changes, resizes, DECCOLM, edits), judged model-free against a new screen
+    let bdepth = if c.thorough() { 4 } else { 3 };
+    let seeds = small_bfs_seeds(c, (3, 2));
+    let st = bfs(c, &seeds, bdepth, 4_000_000, mixed_alphabet, |c, t, local| {
+        if matches!(t.op, Op::Reset) {
+            local.count("bfs_resets");
+            c15_compare(c, t, "E2.bfs.reset", local, 1);
+            return false; // the power-on state itself is a seed already
+        }
+        expand_ok(t)
+    });
+    c.bound("bfs_levels_3x2", json!(st.levels));
     c.bound("geometries", json!(gs));
     g.need(c, "resets");
+    g.need(c, "bfs_resets");
+    g.need(c, "tab_edit_bases");
     g.need(c, "parser_resets");
     g.need(c, "bases_after_deccolm_resize_title");
 }
@@ -1220,8 +1273,11 @@ pub fn c12(c: &Collector, g: &mut Guard) {
             v.push(Op::SaveCursor);
             v.push(Op::RestoreCursor);
             v.push(Op::Draw("ab".into()));
+            v.push(Op::Linefeed);
+            v.push(Op::SetMargins(Some(2), Some(3)));
             v.push(Op::Sgr(vec![27]));
             v.push(Op::Cup(Some(2), Some(2)));
+            v.push(Op::Cup(Some(1), Some(s.columns)));
             v.push(Op::Resize(Some(s.lines), Some(if s.columns == 3 { 4 } else { 3 })));
             v
         },
@@ -1229,6 +1285,11 @@ pub fn c12(c: &Collector, g: &mut Guard) {
             if matches!(t.op, Op::Sm(..) | Op::Rm(..)) {
                 local.count("bfs_judged");
                 refine_all(c, "C12", "E2.bfs", t, local)
+            } else if matches!(t.op, Op::Draw(_) | Op::Linefeed | Op::Cup(..)) {
+                // "IRM, LNM and DECAWM govern insertion, newline and autowrap; DECOM makes
+                // addressing region-relative": the modes' effect on the operations they govern
+                local.count("bfs_governed_ops");
+                refine_all(c, "C12", "E2.bfs.governed", t, local)
             } else {
                 expand_ok(t)
             }
